@@ -33,7 +33,7 @@ ASSUMPTIONS = [
     'K and M symmetric positive definite on the same set of active amplitudes and null elsewhere (massless '
     'amplitudes that carry stiffness are outside the property: the two paths then solve different problems)',
     'no column of M sums to exactly zero unless it is null (dense path: `col_sum != 0`)',
-    'sizes n >= 6, 1 <= num_eigvalues <= 25, tol = 0',
+    'sizes n >= 6, at least 3 active amplitudes (eigs needs 0 < k < N-1), 1 <= num_eigvalues <= 25, tol = 0',
     'a pair is a frequency together with its mode: eigvals[i], eigvecs[:, i], i < min(len, columns)',
     '"to solver precision": ||K v - w^2 M v|| / ((||K||_F + |w^2| ||M||_F) ||v||) <= 1e-7',
     '"ascending" is judged only with sort=True (sort=False asks for the solver order)',
@@ -413,11 +413,12 @@ def evaluate(p, runs):
     return bad, stats
 
 
-# minimised witnesses of the listed findings: run first
+# witnesses of the listed findings and regression inputs of the repaired ones (fixed entries, /repo 3692045, d870371:
+# they must RETURN now; a re-appearance is a VIOLATION): run first
 CORPUS = [
-    # 6 amplitudes, default 25 requested values, sparse path: k = 4 -> (6,4) vs (6,25)
+    # 6 amplitudes, default 25 requested values, sparse path: k = 4 (was: shape mismatch (6,4) vs (6,25))
     dict(kind='random', seed=21, n=6, nnull=0, num=25, scale=2.0, fmt='csr'),
-    # 8 amplitudes, two null, 5 requested: k = 5 >= 6 - 1 -> eigs raises
+    # 8 amplitudes, two null, 5 requested: k re-capped to 4 < 6 - 1 (was: eigs 'k >= N - 1')
     dict(kind='random', seed=22, n=8, nnull=2, num=5, scale=0.5, fmt='csr'),
     # prescribed frequencies sharing a 0.1 bucket: [3, 7, 10.04, 10.01, 15, 20] on both paths
     dict(kind='diag', n=6, act=[0, 1, 2, 3, 4, 5], omega=[10.04, 10.01, 3., 7., 20., 15.], num=4, scale=4.0),
